@@ -3,11 +3,14 @@ package main
 // Scenario "files": file builder and reader (C01 C04 C05 C07 C10 C11 C12 C20, file part of C06).
 
 import (
+	"bufio"
 	"bytes"
 	"context"
 	"encoding/json"
 	"fmt"
 	"io"
+	"sort"
+	"strings"
 	"testing/iotest"
 
 	chunk "github.com/ipfs/boxo/chunker"
@@ -48,7 +51,8 @@ type FileInput struct {
 	Chunker string   `json:"chunker"`
 	Size    int      `json:"size"`
 	Seed    uint64   `json:"seed"`
-	Ref     *refOpts `json:"ref,omitempty"` // written by the reference importer instead of the builder
+	Ref     *refOpts `json:"ref,omitempty"`  // written by the reference importer instead of the builder
+	Hand    string   `json:"hand,omitempty"` // a hand-assembled root over raw leaves (see handFile)
 	// what is done with it
 	Mode   string   `json:"mode"`   // build | history | faults | range | order
 	Opener string   `json:"opener"` // direct | lazy | preload
@@ -200,7 +204,9 @@ func makeFile(in FileInput) (*fileCtx, error) {
 	fc := &fileCtx{st: NewStore()}
 	fc.content = synthContent(in.Seed, in.Size)
 	var err error
-	if in.Ref != nil {
+	if in.Hand != "" {
+		fc.root, fc.content = handFile(fc.st, in.Hand)
+	} else if in.Ref != nil {
 		fc.root, _, err = refImport(fc.st, *in.Ref, fc.content)
 	} else {
 		fc.root, _, err = buildFile(fc.st, in.Width, in.Chunker, fc.content)
@@ -211,7 +217,7 @@ func makeFile(in FileInput) (*fileCtx, error) {
 	fc.dag = dumpDAG(fc.st, fc.root, map[string]*DNode{})
 	preorder(fc.dag, &fc.order)
 	fc.index = firstIndex(fc.order)
-	if in.Ref != nil {
+	if in.Ref != nil || in.Hand != "" {
 		fc.srcTerm = "(FDump " + coqBlk(fc.dag) + ")"
 	} else {
 		fc.lens = chunkLens(fc.content, in.Chunker)
@@ -229,6 +235,10 @@ func runFileInput(rep *Report, in FileInput, cfB, cfR *CaseFile) {
 	case "build":
 		runBuildCase(rep, in, cfB, fail)
 		return
+	}
+	if handUnreadable[in.Hand] {
+		// a root whose links cannot be measured: no content to compare with, the replies are compared with the model only
+		fail = func(prop, sig, what string, exp, got interface{}) {}
 	}
 	fc, err := makeFile(in)
 	if err != nil {
@@ -486,7 +496,7 @@ func runFileInput(rep *Report, in FileInput, cfB, cfR *CaseFile) {
 			fc.st.ReadHook = nil
 		}
 	}
-	if cfR != nil {
+	if cfR != nil && !strings.HasPrefix(in.Hand, "nosizes-") { // measuring children by opening them is outside the model: oracle only
 		fl := make([]string, len(in.Faults))
 		for i, f := range in.Faults {
 			fl[i] = fmt.Sprintf("(%d, %d)", f[0], f[1])
@@ -499,12 +509,16 @@ func runFileInput(rep *Report, in FileInput, cfB, cfR *CaseFile) {
 // are found by opening the children), with raw or dag-pb leaves, with and without a FileSize.  Preloading such a file must
 // still fetch every child, or fail when one is unavailable (C06); reading it returns the concatenation (C01).
 func runNoSizesFiles(rep *Report) {
-	for _, pbLeaves := range []bool{false, true} {
-		for _, withFileSize := range []bool{false, true} {
-			in := map[string]interface{}{"mode": "no-blocksizes-file", "pb_leaves": pbLeaves, "filesize": withFileSize}
+	for _, combo := range [][3]bool{{false, false, false}, {false, true, false}, {true, false, false}, {true, true, false}, {false, false, true}, {false, true, true}, {true, false, true}, {true, true, true}} {
+		{
+			pbLeaves, withFileSize, single := combo[0], combo[1], combo[2]
+			in := map[string]interface{}{"mode": "no-blocksizes-file", "pb_leaves": pbLeaves, "filesize": withFileSize, "single_link": single}
 			fail := func(prop, sig, what string, exp, got interface{}) { rep.Fail(prop, "files/"+sig, what, in, exp, got) }
 			st := NewStore()
 			chunks := [][]byte{[]byte("first-chunk-"), []byte("second"), []byte("third-and-last-chunk")}
+			if single {
+				chunks = chunks[:1] // a root with exactly one link
+			}
 			var kids []cid.Cid
 			var content []byte
 			for _, c := range chunks {
@@ -596,10 +610,106 @@ func runNoSizesFiles(rep *Report) {
 				}
 			}
 			st.Unavailable = map[string]uint64{}
+			noSizesFaultReads(rep, st, root, content, kids, in)
 			key, _ := json.Marshal(in)
-			for _, p := range []string{"C06", "C01"} {
+			for _, p := range []string{"C06", "C01", "C12"} {
 				rep.Count(p, string(key), true, in)
 				rep.Dist(p, "no-blocksizes-file")
+			}
+		}
+	}
+	// the same two levels deep (interior children that have to be opened to be measured), every block below the root
+	// unavailable in turn
+	{
+		st := NewStore()
+		next := 0
+		before := map[string]bool{}
+		root, content := buildNoSizesTree(st, 2, 3, &next)
+		var below []cid.Cid
+		for k := range st.Blocks {
+			if !before[k] && k != root.KeyString() {
+				_, c, err := cid.CidFromBytes([]byte(k))
+				must(err)
+				below = append(below, c)
+			}
+		}
+		sort.Slice(below, func(i, j int) bool { return below[i].KeyString() < below[j].KeyString() })
+		in := map[string]interface{}{"mode": "no-blocksizes-tree", "depth": 2, "fan": 3}
+		noSizesFaultReads(rep, st, root, content, below, in)
+		key, _ := json.Marshal(in)
+		rep.Count("C12", string(key), true, in)
+		rep.Dist("C12", "no-blocksizes-file")
+	}
+}
+
+// noSizesFaultReads: with one block below the root unavailable, a whole-value read and a streamed read through the
+// plain and the lazy view end in the load error, having delivered only bytes of the content's front (C12): neither a
+// shortened value without an error nor end-of-file
+func noSizesFaultReads(rep *Report, st *Store, root cid.Cid, content []byte, blocks []cid.Cid, in map[string]interface{}) {
+	fail := func(prop, sig, what string, exp, got interface{}) { rep.Fail(prop, "files/"+sig, what, in, exp, got) }
+	defer func() { st.Unavailable = map[string]uint64{} }()
+	// where in the content each block's span starts (first occurrence in the depth-first walk)
+	dag := dumpDAG(st, root, map[string]*DNode{})
+	var order []*DNode
+	preorder(dag, &order)
+	var sp [][2]int
+	spans(dag, 0, &sp)
+	spanStart := map[string]int{}
+	for i, nd := range order {
+		if _, seen := spanStart[nd.Cid.KeyString()]; !seen {
+			spanStart[nd.Cid.KeyString()] = sp[i][0]
+		}
+	}
+	for i, k := range blocks {
+		for _, kind := range []uint64{1, 2} {
+			for _, opener := range []string{"direct", "lazy"} {
+				st.Unavailable = map[string]uint64{k.KeyString(): kind}
+				nd, err := openFile(st, root, opener)
+				if err != nil {
+					continue
+				}
+				var got []byte
+				o := guard(func() error {
+					var err error
+					got, err = nd.AsBytes()
+					return err
+				})
+				desc := fmt.Sprintf("%s, block %d unavailable (kind %d)", opener, i, kind)
+				switch o.Class {
+				case "panic":
+					fail("C13", "nosizes-fault-panic", "reading a file with an unavailable block panicked", "error", desc)
+				case "ok", "eof":
+					fail("C12", "nosizes-fault-asbytes", "AsBytes of a file with an unavailable block returned a value instead of the load error", "load error", fmt.Sprintf("%s: %s, %d of %d bytes", desc, o.Class, len(got), len(content)))
+				}
+				lb, ok := nd.(lbn)
+				if !ok {
+					continue
+				}
+				r, err := lb.AsLargeBytes()
+				if err != nil {
+					continue
+				}
+				var acc []byte
+				var last Outcome
+				for steps := 0; steps < len(content)+8; steps++ {
+					b, oc := readFull(r, 7)
+					acc = append(acc, b...)
+					last = oc
+					if oc.Class != "ok" {
+						break
+					}
+				}
+				switch {
+				case last.Class == "panic":
+					fail("C13", "nosizes-fault-panic", "streaming a file with an unavailable block panicked", "error", desc)
+				case last.Class == "ok" || last.Class == "eof":
+					fail("C12", "nosizes-fault-stream", "a streamed read of a file with an unavailable block ended without the load error", "load error", fmt.Sprintf("%s: %s after %d of %d bytes", desc, last.Class, len(acc), len(content)))
+				case !bytes.HasPrefix(content, acc) || len(acc) > spanStart[k.KeyString()]:
+					fail("C12", "nosizes-fault-prefix", "bytes delivered before the load error are not the content preceding the unavailable block", spanStart[k.KeyString()], fmt.Sprintf("%s: %d bytes, equal prefix %d", desc, len(acc), commonPrefix(acc, content)))
+				case len(acc) < spanStart[k.KeyString()]:
+					// children without a BlockSizes entry are all measured (opened) before the first byte is delivered
+					fail("C12", "nosizes-fault-early-error", "the load error of an unavailable block surfaces before all the bytes preceding its span were delivered (file node whose children have no BlockSizes entry)", fmt.Sprintf("%d bytes, then the error", spanStart[k.KeyString()]), fmt.Sprintf("%s: %d bytes, then the error", desc, len(acc)))
+				}
 			}
 		}
 	}
@@ -718,6 +828,22 @@ func runBuildCase(rep *Report, in FileInput, cf *CaseFile, fail func(prop, sig, 
 		return
 	}
 	dag := dumpDAG(st, root, map[string]*DNode{})
+	// the size-K splitter as the model states it (File/Chunker.v): K, K, ..., K, r with 1 <= r <= K, summing to the input
+	var kk int
+	if n, _ := fmt.Sscanf(in.Chunker, "size-%d", &kk); n == 1 && kk > 0 {
+		lens := chunkLens(content, in.Chunker)
+		sum := 0
+		okShape := true
+		for i, l := range lens {
+			sum += l
+			if l < 1 || l > kk || (i < len(lens)-1 && l != kk) {
+				okShape = false
+			}
+		}
+		if !okShape || sum != len(content) {
+			fail("C01", "size-chunker-shape", "the size-K splitter does not cut the input into K-byte chunks with one shorter last chunk (harness / reference library)", kk, lens)
+		}
+	}
 	// reference
 	rst := NewStore()
 	rroot, rsize, rerr := refImport(rst, refOpts{Width: in.Width, Chunker: in.Chunker, RawLeaves: true}, content)
@@ -780,6 +906,14 @@ func runBuildCase(rep *Report, in FileInput, cf *CaseFile, fail func(prop, sig, 
 		func() io.Reader { return iotest.HalfReader(bytes.NewReader(content)) },
 		func() io.Reader { return iotest.DataErrReader(bytes.NewReader(content)) },
 		func() io.Reader { return &emptyFirstReader{r: bytes.NewReader(content)} },
+		func() io.Reader { return struct{ io.Reader }{bytes.NewReader(content)} }, // no Len / Seek / WriteTo to shortcut through
+		func() io.Reader { return bufio.NewReaderSize(bytes.NewReader(content), 16) },
+		func() io.Reader {
+			// a seekable source whose first bytes were consumed already: the content is what the reader still delivers
+			r := bytes.NewReader(append([]byte("16-byte header.."), content...))
+			_, _ = io.CopyN(io.Discard, r, 16)
+			return r
+		},
 	} {
 		st2 := NewStore()
 		r2, s2, err := buildFileFrom(st2, in.Width, in.Chunker, mk())
@@ -787,6 +921,11 @@ func runBuildCase(rep *Report, in FileInput, cf *CaseFile, fail func(prop, sig, 
 			fail("C10", "rebuild-error", "rebuilding failed", nil, err.Error())
 		} else if !r2.Equals(root) || s2 != size {
 			fail("C10", fmt.Sprintf("fragmentation-%d", i), "link or size depends on the run or on the reader's fragmentation", fmt.Sprint(root, size), fmt.Sprint(r2, s2))
+			if n2, err := openFile(st2, r2, "direct"); err == nil {
+				if got, err := n2.AsBytes(); err == nil && !bytes.Equal(got, content) {
+					fail("C01", fmt.Sprintf("source-reader-%d", i), "the file built from a reader does not read back to the bytes that reader delivered", len(content), fmt.Sprintf("%d bytes, equal prefix %d", len(got), commonPrefix(got, content)))
+				}
+			}
 		}
 	}
 	if cf != nil {
@@ -907,7 +1046,7 @@ func scnFiles(rep *Report, rng *Rng, tier string, outdir string) {
 	addRead := func(in FileInput) {
 		runFileInput(rep, in, nil, cfRs[in.Mode])
 		prop := readProps[in.Mode]
-		key, _ := json.Marshal([]interface{}{in.Width, in.Chunker, in.Size, in.Seed, in.Ref, in.Opener, in.Ops, in.Faults})
+		key, _ := json.Marshal([]interface{}{in.Width, in.Chunker, in.Size, in.Seed, in.Ref, in.Hand, in.Opener, in.Ops, in.Faults})
 		nontrivial := in.Size > 2
 		rep.Count(prop, string(key), nontrivial, in)
 		rep.Dist(prop, "opener="+in.Opener)
@@ -918,6 +1057,7 @@ func scnFiles(rep *Report, rng *Rng, tier string, outdir string) {
 		}
 		rep.Dist(prop, fmt.Sprintf("ops=%d", len(in.Ops)/8*8))
 	}
+	openers3 := []string{"direct", "lazy", "preload"}
 	type fspec struct {
 		w, k, size int
 		seed       uint64
@@ -942,6 +1082,50 @@ func scnFiles(rep *Report, rng *Rng, tier string, outdir string) {
 				specs = append(specs, fspec{w: 3, k: 2, size: 23 + rng.Intn(8), seed: uint64(rng.Intn(200)),
 					ref: &refOpts{Width: 3, Chunker: "size-2", RawLeaves: raw, CidV0: v0, Trickle: tr}})
 			}
+		}
+	}
+	// hand-assembled roots: lengths taken from the links, and links whose size cannot be determined at all
+	for hi, hand := range []string{"raw-tsize", "raw-tsize-sized", "raw-no-tsize", "raw-no-tsize-filesize"} {
+		for v := 0; v < 3; v++ {
+			in := FileInput{Hand: hand, Mode: "history", Opener: openers3[(hi+v)%3]}
+			_, content := handFile(NewStore(), hand)
+			in.Size = len(content)
+			in.Ops = []FOp{{Kind: "seek", Off: 0, Whence: io.SeekEnd}, {Kind: "read", K: 4}, {Kind: "seek", Off: -3, Whence: io.SeekEnd}, {Kind: "read", K: 9},
+				{Kind: "seek", Off: int64(2 + v), Whence: io.SeekStart}, {Kind: "read", K: 6 + v}, {Kind: "seek", Off: 1, Whence: io.SeekCurrent}, {Kind: "read", K: 100},
+				{Kind: "seek", Off: -int64(len(content)) - 1, Whence: io.SeekEnd}, {Kind: "read", K: 2}}
+			if v == 2 {
+				in.Ops = in.Ops[1:] // an odd number of operations: readers obtained at first use
+			}
+			addRead(in)
+		}
+	}
+	// Seek/Read histories over roots whose children have to be opened to be measured
+	nHand := 12
+	if tier == "thorough" {
+		nHand = 200
+	}
+	for hi, hand := range []string{"nosizes-tree-1", "nosizes-tree-2"} {
+		_, content := handFile(NewStore(), hand)
+		size := len(content)
+		for h := 0; h < nHand; h++ {
+			in := FileInput{Hand: hand, Mode: "history", Opener: openers3[(hi+h)%3], Size: size}
+			nreaders := 1 + rng.Intn(2)
+			for i, nops := 0, 2+rng.Intn(14); i < nops; i++ {
+				op := FOp{Reader: rng.Intn(nreaders)}
+				if rng.Intn(5) < 2 {
+					op.Kind = "seek"
+					op.Whence = rng.Intn(3)
+					op.Off = []int64{0, int64(rng.Intn(size + 1)), int64(9 * rng.Intn(size/9+1)), int64(size), int64(size + 2), -1}[rng.Intn(6)]
+					if op.Whence == io.SeekEnd {
+						op.Off -= int64(size)
+					}
+				} else {
+					op.Kind = "read"
+					op.K = []int{1, 4, 9, 10, 27, size + 2}[rng.Intn(6)]
+				}
+				in.Ops = append(in.Ops, op)
+			}
+			addRead(in)
 		}
 	}
 	nHist := 6
@@ -1050,6 +1234,11 @@ func scnFiles(rep *Report, rng *Rng, tier string, outdir string) {
 				// a single ordered log is needed: one big read after small ones would reset it, so use one op
 				in.Ops = []FOp{{Kind: "read", K: s.size + 5}}
 			}
+			if in.Opener != "preload" {
+				// the same walk again, from a second reader of the node and from the first one rewound: what an
+				// earlier read left behind on the node or the reader must not change what is requested
+				in.Ops = append(in.Ops, FOp{Reader: 1, Kind: "read", K: s.size + 5}, FOp{Kind: "seek", Off: 0, Whence: io.SeekStart}, FOp{Kind: "read", K: s.size + 5})
+			}
 			addRead(in)
 		}
 		// faults (C12): every single block, random subsets
@@ -1112,4 +1301,61 @@ func depthFor(w, n int) int {
 		d++
 	}
 	return d
+}
+
+// handUnreadable: hand-assembled roots whose reads and end-relative seeks fail (a link size cannot be determined)
+var handUnreadable = map[string]bool{"raw-no-tsize": true, "raw-no-tsize-filesize": true}
+
+// handFile stores three raw leaves under a hand-assembled file root that no builder writes but the reader accepts:
+//
+//	raw-tsize          links with Tsize, Data without FileSize and BlockSizes (length = sum of the link sizes)
+//	raw-tsize-sized    the same with BlockSizes and FileSize
+//	raw-no-tsize       links without Tsize and no FileSize: neither a read nor the length can be served
+//	raw-no-tsize-filesize  links without Tsize, FileSize present: the length is known, reads fail
+func handFile(st *Store, kind string) (cid.Cid, []byte) {
+	chunks := [][]byte{[]byte("hand-1;"), []byte("hand-two;"), []byte("3")}
+	var content []byte
+	var kids []cid.Cid
+	var bsz []uint64
+	for _, c := range chunks {
+		content = append(content, c...)
+		kids = append(kids, st.PutRaw(c))
+		bsz = append(bsz, uint64(len(c)))
+	}
+	if kind == "nosizes-tree-1" || kind == "nosizes-tree-2" {
+		// interior nodes without BlockSizes / FileSize over dag-pb leaves: sizes are measured by opening the children
+		next := 0
+		return buildNoSizesTree(st, int(kind[len(kind)-1]-'0'), 3, &next)
+	}
+	total := uint64(len(content))
+	var d []byte
+	switch kind {
+	case "raw-tsize", "raw-no-tsize":
+		d = ufsData(2, nil, false, nil, nil, nil, nil)
+	case "raw-tsize-sized":
+		d = ufsData(2, nil, false, &total, bsz, nil, nil)
+	case "raw-no-tsize-filesize":
+		d = ufsData(2, nil, false, &total, nil, nil, nil)
+	default:
+		panic("unknown hand file " + kind)
+	}
+	rootN, err := qp.BuildMap(dagpb.Type.PBNode, -1, func(ma datamodel.MapAssembler) {
+		qp.MapEntry(ma, "Links", qp.List(int64(len(kids)), func(la datamodel.ListAssembler) {
+			for i, k := range kids {
+				k, i := k, i
+				qp.ListEntry(la, qp.Map(-1, func(ma datamodel.MapAssembler) {
+					qp.MapEntry(ma, "Hash", qp.Link(cidlink.Link{Cid: k}))
+					qp.MapEntry(ma, "Name", qp.String(""))
+					if kind == "raw-tsize" || kind == "raw-tsize-sized" {
+						qp.MapEntry(ma, "Tsize", qp.Int(int64(len(chunks[i]))))
+					}
+				}))
+			}
+		}))
+		qp.MapEntry(ma, "Data", qp.Bytes(d))
+	})
+	must(err)
+	root, err := st.PutPB(rootN, false)
+	must(err)
+	return root, content
 }
